@@ -444,4 +444,54 @@ theorem cookies_eq (R : List (Field × Nat)) :
   intro p _
   exact cookie_eq p.1 p.2
 
+/-! ### user agent, language, server; the p0f signature -/
+
+theorem lastValue_eq_valueOf (Hs : List Hdr) (key : Bytes) (hk : lowerAscii key = key)
+    (hsome : ∀ h ∈ Hs, eqIgnoreCase h.name key = true → h.value.isSome = true)
+    (hc : countHdr Hs key ≤ 1) : lastValue Hs key = valueOf Hs key := by
+  unfold lastValue valueOf
+  have hpred : Hs.filter (fun h => lowerAscii h.name == key && h.value.isSome)
+      = Hs.filter (fun h => eqIgnoreCase h.name key) := by
+    apply List.filter_congr
+    intro h hh
+    simp only [eqIgnoreCase, hk]
+    by_cases he : (lowerAscii h.name == key) = true
+    · have := hsome h hh (by simp only [eqIgnoreCase, hk]; exact he)
+      simp [he, this]
+    · have : (lowerAscii h.name == key) = false := by simpa using he
+      simp [this]
+  rw [hpred, last_eq_find _ _ hc]
+
+theorem contains_lower_false (l : List Bytes) (n : Bytes) (h : inListIgnoreCase l n = false) :
+    l.contains (lowerAscii n) = false := by
+  unfold inListIgnoreCase at h
+  rw [List.any_eq_false] at h
+  rw [Bool.eq_false_iff]
+  intro hc
+  rw [List.contains_iff_mem] at hc
+  have := h (lowerAscii n) hc
+  simp [eqIgnoreCase, lower_idem] at this
+
+theorem toSig_eq (ol sl : List Bytes) (Hs : List Hdr) (h : KF.C16.listCase ol sl Hs = false) :
+    toSigHeaders ol sl Hs = Hs.map (sigOf ol sl) := by
+  unfold toSigHeaders
+  apply List.map_congr_left
+  intro x hx
+  unfold KF.C16.listCase at h
+  rw [List.any_eq_false] at h
+  have := h x hx
+  simp only [Bool.or_eq_true, not_or, Bool.not_eq_true] at this
+  unfold sigOf
+  simp only [contains_lower_false _ _ this.1, contains_lower_false _ _ this.2, this.1, this.2,
+    Bool.false_eq_true, if_false]
+
+theorem absent_eq (cl : List Bytes) (Hs : List Hdr) : absentHeaders cl Hs = absent cl Hs := by
+  simp only [absentHeaders, absent]
+  congr 1
+  apply List.filter_congr
+  intro c _
+  congr 1
+  rw [Bool.eq_iff_iff]
+  simp only [List.contains_iff_mem, List.mem_map, List.any_eq_true, eqIgnoreCase, beq_iff_eq]
+
 end Huginn.Lemmas.H2Message
